@@ -162,6 +162,12 @@ def rule_lifetime_and_bracket(ctx):
 
     n = 0
     for p, h in zip(explore(prog, fac, run, max_paths=64), hooks):
+        if h.parsed and p.outcome == "raise" and not h.calls:
+            ctx.ob("C12.b", "a MERGE with every clause kind (incl. lower-case DELETE) is exploded without error", False, "fakesnow/transforms_merge.py")
+            ctx.violation("C12.b", "transforms_merge", "merge", f"explode raises {p.value.cls}", "fakesnow/transforms_merge.py",
+                          f"exploding a MERGE with clauses {CLAUSES} raises {p.value.cls} before anything is executed")
+            n += 1
+            continue
         if not h.parsed or p.outcome != "return":
             continue
         n += 1
